@@ -19,8 +19,18 @@ func patternResidues(n int, alpha string) []byte {
 	p := make([]byte, n)
 	switch alpha {
 	case "print":
+		// printable, no blank (the blank is the group separator of the ORIGIN layout)
 		for i := range p {
 			c := byte(33 + (i*7+n)%94)
+			if c == '>' {
+				c = 'x'
+			}
+			p[i] = c
+		}
+	case "printsp":
+		// the printable ASCII range including the blank (0x20..0x7e), for FASTA
+		for i := range p {
+			c := byte(32 + (i*7+n)%95)
 			if c == '>' {
 				c = 'x'
 			}
@@ -239,7 +249,7 @@ func runFasta(c J, emit func(J)) {
 			for i := 0; i < count; i++ {
 				n := asInt(ns[(k+i*3)%len(ns)])
 				desc := asStr(descs[(k+i)%len(descs)])
-				p := patternResidues(n, "print")
+				p := patternResidues(n, "printsp")
 				written = append(written, J{"desc": desc, "res": bytesToInts(p)})
 				seqs = append(seqs, gts.New(desc, nil, p))
 			}
